@@ -73,3 +73,78 @@ pub fn syntax_error_class(msg: &str) -> String {
   }
   out.chars().take(90).collect()
 }
+
+/// A multi-module program: parsed user modules + the standard library, in one heap.
+pub struct Program {
+  pub heap: Heap,
+  pub modules: std::collections::HashMap<ModuleReference, Module<()>>,
+  pub texts: std::collections::HashMap<ModuleReference, String>,
+  pub user: Vec<ModuleReference>,
+  pub syntax_errors: usize,
+}
+
+pub fn load_program(mods: &[(Vec<String>, String)]) -> Result<Program, Panic> {
+  let mut heap = Heap::new();
+  let mut modules = std::collections::HashMap::new();
+  let mut texts = std::collections::HashMap::new();
+  let mut user = vec![];
+  let mut syntax_errors = 0;
+  for (name, text) in mods {
+    let mr = heap.alloc_module_reference_from_string_vec(name.clone());
+    let (m, errs) = parse_in(&mut heap, mr, text)?;
+    syntax_errors += errs.len();
+    modules.insert(mr, m);
+    texts.insert(mr, text.clone());
+    user.push(mr);
+  }
+  for (mr, text) in samlang_parser::builtin_std_raw_sources(&mut heap) {
+    if modules.contains_key(&mr) {
+      continue;
+    }
+    let (m, _) = parse_in(&mut heap, mr, &text)?;
+    modules.insert(mr, m);
+    texts.insert(mr, text);
+  }
+  // std modules that exist in the repository but are not compiled into the parser crate (std/set.sam)
+  for (name, text) in std_extra_sources() {
+    let mr = heap.alloc_module_reference_from_string_vec(name);
+    if modules.contains_key(&mr) {
+      continue;
+    }
+    let (m, _) = parse_in(&mut heap, mr, &text)?;
+    modules.insert(mr, m);
+    texts.insert(mr, text);
+  }
+  Ok(Program { heap, modules, texts, user, syntax_errors })
+}
+
+/// the repository's tests/*.sam as modules `tests.<Name>`
+pub fn repo_test_modules() -> Vec<(Vec<String>, String)> {
+  let dir = crate::engine::repo_root().join("tests");
+  let mut out = vec![];
+  let mut files: Vec<_> = std::fs::read_dir(&dir).map(|r| r.filter_map(|e| e.ok()).map(|e| e.path()).collect()).unwrap_or_default();
+  files.sort();
+  for f in files {
+    if f.extension().and_then(|e| e.to_str()) == Some("sam")
+      && let Ok(text) = std::fs::read_to_string(&f)
+    {
+      out.push((vec!["tests".to_string(), f.file_stem().unwrap().to_string_lossy().to_string()], text));
+    }
+  }
+  out
+}
+
+pub fn std_extra_sources() -> Vec<(Vec<String>, String)> {
+  let dir = crate::engine::repo_root().join("std");
+  let mut out = vec![];
+  let mut files: Vec<_> = std::fs::read_dir(&dir).map(|r| r.filter_map(|e| e.ok()).map(|e| e.path()).collect()).unwrap_or_default();
+  files.sort();
+  for f in files {
+    if f.extension().and_then(|e| e.to_str()) == Some("sam")
+      && let Ok(text) = std::fs::read_to_string(&f)
+    {
+      out.push((vec!["std".to_string(), f.file_stem().unwrap().to_string_lossy().to_string()], text));
+    }
+  }
+  out
+}
